@@ -1744,7 +1744,7 @@ int main(int argc, char **argv)
     Sink sink(a);
     long total;
     void (*fn)(Sink &, const Args &, long);
-    if (a.prop == "C05") total = a.thorough() ? 40000 : 30000, fn = c05::runCase;
+    if (a.prop == "C05") total = a.thorough() ? 80000 : 30000, fn = c05::runCase;
     else if (a.prop == "C14") total = a.thorough() ? 400000 : 40000, fn = c14::runCase;
     else
     {
